@@ -737,7 +737,9 @@ func (ex *Exec) instr(fr *Frame, st *State, in ssa.Instruction) {
 			_ = id
 		}
 		if fr.debugVals != nil {
-			if idn := identName(x); idn != "" {
+			if obj := x.Object(); obj != nil && obj.Pkg() != nil && obj.Parent() == obj.Pkg().Scope() {
+				// a package-level name, not a local
+			} else if idn := identName(x); idn != "" {
 				fr.debugVals[idn] = x.X
 			}
 		}
